@@ -72,4 +72,36 @@ mod verif_witness_c11 {
         assert_eq!(bad, 0);
     }
 
+
+    /// the same along deterministic pseudo-random games (every piece kind on many squares, both game stages, en passant and
+    /// castling rights around): value(P) == -value(flip(P))
+    #[test]
+    fn verif_witness_c11_flip_along_games() {
+        use inkayaku_core::fen::Fen;
+        let h = SimpleHeuristic {};
+        let mut bad = 0;
+        let mut x: u64 = 0x9E3779B97F4A7C15;
+        for root in ["rnbqkbnr/pppppppp/8/8/8/8/PPPPPPPP/RNBQKBNR w KQkq - 0 1",
+                     "r3k2r/p1ppqpb1/bn2pnp1/3PN3/1p2P3/2N2Q1p/PPPBBPPP/R3K2R w KQkq - 0 1",
+                     "4k3/1q4b1/8/8/3N4/8/1B4Q1/4K3 b - - 0 30", "8/2p5/3p4/KP5r/1R3p1k/8/4P1P1/8 w - - 0 1"] {
+            for _game in 0..15 {
+                let mut board = Bitboard::from_fen_string_unchecked(root);
+                for _ply in 0..70 {
+                    let fen = Fen::from(&board).fen;
+                    let twin = flip_fen(&fen);
+                    let a = h.evaluate_ongoing(&board, 0);
+                    let b = h.evaluate_ongoing(&Bitboard::from_fen_string_unchecked(&twin), 0);
+                    if a != -b {
+                        if bad < 3 { println!("FAILING-INPUT: fen={:?} evaluates to {} but its colour-flipped twin {:?} evaluates to {}", fen, a, twin, b); }
+                        bad += 1;
+                    }
+                    let moves = board.generate_legal_moves();
+                    if moves.is_empty() { break; }
+                    x ^= x << 13; x ^= x >> 7; x ^= x << 17;
+                    board.make(moves[(x % moves.len() as u64) as usize]);
+                }
+            }
+        }
+        assert_eq!(bad, 0);
+    }
 }
